@@ -146,8 +146,10 @@ def run_path(I, c, fn, module, res):
                 prev = I.old_frame
                 I.old_frame = old
                 try:
+                    # parameters: entry references; other names: the live locals at the yield
+                    yf = Frame(dict(pf.env), I.live_frame(node) or fr, func=sf)
                     for i, e in enumerate(c.each_yield):
-                        g = I.as_goal(I.pure_eval(e, pf, {'value': v}))
+                        g = I.as_goal(I.pure_eval(e, yf, {'value': v}))
                         ctx.oblige(I.oname('yield', node.lineno, i), g, 'yield', node.lineno)
                 finally:
                     I.old_frame = prev
